@@ -260,7 +260,9 @@ def _history(rng, core, mode, long=False):
             explicit = [rng.choice(["s", "e"]), sorted(rng.sample(range(1, 4), rng.choice([1, 1, 2]))),
                         rng.randrange(1, 4), rng.randrange(1, 3), None, rng.random() < 0.5]
             # default splitter only while the stored horizon is still ahead of the cutoff (an absolute one falls behind)
-            stored_oos = stored is not None and all(v > (0 if stored[0] == "r" else cutoff) for v in stored[1])
+            # (the cutoff can be anywhere up to the last label handed over so far: update_predict merges what it fed)
+            hi = max([cutoff] + [l for o in ops if o[0] in ("fit", "upd", "ups", "up") for l, _ in o[1]])
+            stored_oos = stored is not None and all(v > (0 if stored[0] == "r" else hi) for v in stored[1])
             cv = explicit if (not stored_oos or rng.random() < 0.5) else None
             if opq:
                 # composites: explicit splitter with the horizon they were fitted with, full first window
@@ -275,8 +277,16 @@ def _history(rng, core, mode, long=False):
             ops.append(["up", batch, cv, (rng.random() < 0.3) and not opq])
     if opq and not any(o[0] in ("upd", "ups") for o in ops):
         ops.append(["upd", M.stretch(rng, cutoff + 1, rng.randrange(2, 5), 0.0, True, 0.0), rng.random() < 0.4])
+        cutoff = ops[-1][1][-1][0]
     if opq and ops[-1][0] != "pred":
         ops.append(["pred", None if mode == "r" else M.rand_fh(rng, "oos", None, maxh)])
+    if mode == "o" and rng.random() < 0.3:
+        # the same numbers once as steps and once as time points (both ahead of the cutoff): the kind of a horizon
+        # is part of it, a forecaster that has seen one must not answer the other with it
+        steps = sorted(rng.sample(range(1, 4), rng.choice([1, 2, 3])))
+        vals = [max(cutoff, 0) + s_ for s_ in steps]
+        for kd in rng.choice([["r", "a"], ["a", "r"], ["r", "a", "r"], ["a", "r", "a"]]):
+            ops.append(["pred", [kd, vals]])
     return ops
 
 
